@@ -126,5 +126,3 @@ func cmdFunc(mode string, args []string) {
 		fmt.Printf("  discharged %d/%d\n", nok, len(ids))
 	}
 }
-
-
